@@ -53,6 +53,11 @@ def body(run):
                     upsampling=rng.choice(['cubic_spline', 'bilinear', 'nearest']), r2_inpaint_thresh=rng.choice([0.25, 0.6, 0.0]),
                     mask_partial=False, dtype=rng.choice(['float32', 'uint8', 'int16', 'float64']), nodata=rng.choice(['nan', '0', 'null', '255']),
                     driver='GTiff', proc_crs=rng.choice(['auto', 'ref', 'src']))
+        # (every nodata spelling with every way of passing it, in turn: the first runs do not leave it to chance)
+        if k < 8:
+            opts['nodata'] = ['nan', 'null', '0', '255'][k % 4]
+            if opts['nodata'] == 'nan':
+                opts['dtype'] = ['float32', 'float64'][(k // 4) % 2]
         if opts['dtype'] in ('uint8', 'int16') and opts['nodata'] == 'nan':
             opts['nodata'] = '0'
         co = rng.choice([None, dict(tiled=True, blockxsize=16, blockysize=16, compress='deflate'), dict(compress='lzw')])
@@ -62,6 +67,8 @@ def body(run):
             bands = (rng.sample([1, 2, 3], 2), rng.sample([1, 2, 3], 2))
         # split the advanced options between configuration file and flags
         via_conf = {kk: v for kk, v in opts.items() if kk not in ('proc_crs',) and rng.random() < 0.4}
+        if k < 8:
+            (via_conf.pop('nodata', None), via_conf.pop('dtype', None)) if k < 4 else via_conf.update(nodata=opts['nodata'], dtype=opts['dtype'])
         out_cli, out_api = run.work / f'cli{k}', run.work / f'api{k}'
         out_cli.mkdir()
         out_api.mkdir()
